@@ -307,6 +307,18 @@ def g_profile(files):
                     viol.append({'file': f.rel, 'fn': fn, 'line': t.line, 'token': t.text,
                                  'what': f'generated code depends on the build profile (`{t.text}`) in {f.rel}::{fn}: guards or '
                                          f'constructions behind it are not the ones analysed in the dev profile'})
+                elif t.kind == 'ident' and t.text in ('cfg', 'cfg_attr') and k + 3 < b:
+                    # any other conditional compilation *of the generated program* (it would be evaluated in the user's
+                    # crate: target, features of that crate, ...); `cfg(test)` around the generated unit tests is the
+                    # one legitimate use and is analysed separately (test-mode corpus)
+                    nxt = [x.text for x in f.toks[k + 1:k + 5]]
+                    if nxt[:3] == ['(', 'test', ')']:
+                        continue
+                    if nxt[0] == '!' and nxt[1:4] == ['(', 'test', ')']:
+                        continue
+                    viol.append({'file': f.rel, 'fn': fn, 'line': t.line, 'token': 'cfg',
+                                 'what': f'generated code is conditionally compiled (`{t.text}{" ".join(nxt)} ..`) in {f.rel}::{fn}: '
+                                         f'only the configuration the corpus is built in is analysed'})
     return inst, viol
 
 
